@@ -19,7 +19,7 @@ _STUB = (
     "part of every run of these properties.")
 
 _COMMON_BOUNDS = (
-    "pre-state: exactly n stored samples, n in {1} (quick; C21 also 2) / {0,1,2,3} (thorough), over 2 instance handles and 2 writer "
+    "pre-state: exactly n stored samples, n in {1, 2} (quick) / {0,1,2,3} (thorough), over 2 instance handles and 2 writer "
     "guids; all 5 change kinds; source timestamps None or sec 0..4 x nanosec {0, 5*10^8} (every order/equality relation of up to 4 "
     "timestamps; C25 thorough additionally sec 0..2^30 x any nanosec); generation counts 0..2; KEEP_LAST depth 1..3 / KEEP_ALL; "
     "resource limits in {1,2,3,unlimited}; one step; unwinding bound 6 (every list has <= 4 elements); SAT back end MiniSat "
@@ -40,9 +40,12 @@ _ASSUME = [
 
 _LEVEL_NOTE = (
     "trusted: Kani 0.68 / CBMC 6.11 / MiniSat 2.2.1, the pre-state constructors and <= 20-line oracles of "
-    "harness/incrate/support_reader.rs, the handle_eq stub (proved equivalent per run). Measured per obligation on the shared "
-    "16-core box: 1 stored sample 2-3 M SAT variables, 1.5-2.5 GB, 60-150 s unloaded (up to 800 s at load average 40); 2 samples "
-    "3-8 M variables, 2.5-3.5 GB; 3 samples 6.6-9 M variables, about 5 GB, 11 min unloaded.")
+    "harness/incrate/support_reader.rs, the handle_eq stub (proved equivalent per run). Measured per obligation (CBMC alone, "
+    "symbolic execution + SAT, load average about 10 on the shared 16-core box): 1 stored sample 2-3.3 M SAT variables, 25-90 s, "
+    "1.5-2.3 GB; 2 samples 2.7-4.9 M variables, 55-145 s, 2.1-3.2 GB (BY_SOURCE_TIMESTAMP with KEEP_LAST, i.e. Vec::remove followed "
+    "by Vec::insert at symbolic indices: 8 GB); 3 samples 6.6 M variables, about 270 s, 2.4-3.9 GB. Through ./check (JSON output, "
+    "traces for witnesses) wall times are about twice that plus a 30 s build; at load average 40 they were 5-8 times higher, hence "
+    "the generous per-harness timeouts.")
 
 prop(
     "C18",
@@ -56,8 +59,8 @@ prop(
         "instance, limits and representation invariant hold again. " + _STUB + " Finding KF-C18-1 (limit tests run before the "
         "KEEP_LAST replacement, so a full instance with max_samples_per_instance == depth or max_samples reached is Rejected for "
         "ever) is kept as a __known harness restricted to its trigger; every __rest harness assumes the negation."),
-    bounds=_COMMON_BOUNDS + "; quick: KEEP_LAST and KEEP_ALL with 1 stored sample; thorough: 0, 2, 3 samples, BY_SOURCE_TIMESTAMP, full "
-           "ownership table, change for an unregistered instance",
+    bounds=_COMMON_BOUNDS + "; quick: KEEP_LAST with 1 and KEEP_ALL with 2 stored samples; thorough: 0..3 samples for both, "
+           "BY_SOURCE_TIMESTAMP, full ownership table, change for an unregistered instance",
     outside=_COMMON_OUTSIDE + "; 'depth samples' is checked in the implementation's convention (depth counts samples of kind ALIVE; "
             "dispose/unregister markers and ALIVE_FILTERED samples are not bounded by depth); 'most recent received' is storage order, "
             "which under BY_SOURCE_TIMESTAMP is source-timestamp order (C21)",
@@ -88,7 +91,8 @@ prop(
         "change, no instance); an accepted write records one sample, takes the next sequence number and hands exactly one change "
         "to the transport writer. " + _STUB + " Finding KF-C19-1 (a refused write of a new instance leaves the instance "
         "registered) is a __known harness restricted to its trigger; the writer __rest harnesses assume the negation."),
-    bounds=_COMMON_BOUNDS + "; writer: 0, 1 or 2 registered instances (+1 new) with 0..3 recorded samples each",
+    bounds=_COMMON_BOUNDS + "; quick: reader KEEP_ALL with 2 stored samples, writer with 1 registered instance; thorough: reader 0..3 samples, "
+           "KEEP_LAST, writer with 0, 1 or 2 registered instances (+1 new) and 0..3 recorded samples each",
     outside=_COMMON_OUTSIDE + "; the `instances` table of the reader is never pruned and also grows for a rejected change of a new "
             "instance (observable through next_instance only; not counted as 'held instances' here); instance-state side effects of a "
             "rejected change (update_state runs before the limit tests) belong to C22; writer: the KEEP_LAST removal of the oldest "
@@ -98,7 +102,7 @@ prop(
             "dispose/unregister/register of the writer (DynamicData)",
     level_text="Bounded model checking (Kani/CBMC, SAT) of the real add_reader_change and write_w_timestamp: one inductive step from "
                "every pre-state of the bounded family; no sampling. Level 'other': bounded, histories through the invariant only.",
-    level_note=_LEVEL_NOTE + " Writer obligations: about 1 M variables, 70-120 s.",
+    level_note=_LEVEL_NOTE + " Writer obligations: about 1 M variables, 20 s.",
     technique="Kani/CBMC symbolic execution of the real add_reader_change / write_w_timestamp, one inductive step",
     assumptions=_ASSUME + ["ownership SHARED, time-based filter off in the C19 reader harnesses",
                            "writer: bookkeeping within the limits before the call, DataWriterQos::is_consistent(), lifespan infinite, "
@@ -116,20 +120,20 @@ prop(
         "(the insert position is searched over the whole list, so global sortedness is the inductive invariant that implies the "
         "per-instance order the property asks for; removals by take/KEEP_LAST preserve it). Oracle after the step: samples of one "
         "instance that carry a source timestamp are in non-decreasing order, and the whole list is still sorted (derived order of "
-        "Option<Time>, None first, which is what the implementation compares). " + _STUB + " Finding KF-C21-1 "
-        "(position(..).unwrap_or(0): a change newer than every stored sample is inserted at the FRONT, so in-order arrival 1, 2 is "
-        "stored as [2, 1]) is a __known harness restricted to its trigger (no remaining stored sample newer, at least one older); "
-        "the __rest harnesses assume the negation and cover insertion in the middle, at the front, equal and missing timestamps."),
+        "Option<Time>, None first, which is what the implementation compares). " + _STUB + " The defect this check found "
+        "(KF-C21-1: position(..).unwrap_or(0) inserted a change newer than every stored sample at the FRONT, so in-order arrival "
+        "1, 2 was stored as [2, 1]) was repaired in /repo (unwrap_or(self.sample_list.len())); its former trigger region is part of "
+        "every harness again and has its own vacuity witness ('appended at the end'), next to insertion in the middle, at the "
+        "front, and equal or missing timestamps."),
     bounds=_COMMON_BOUNDS + "; quick: KEEP_ALL with 1 and 2 stored samples (insert in the middle); thorough: 0 and 3 samples, KEEP_LAST "
            "(eviction followed by insertion) with 1 and 2 samples",
     outside=_COMMON_OUTSIDE + "; order among samples without a source timestamp (the property does not constrain it); the order in which "
             "read/take present the stored list (storage order, C20)",
     level_text="Bounded model checking (Kani/CBMC, SAT) of the real add_reader_change with BY_SOURCE_TIMESTAMP: one inductive step from "
                "every sorted pre-state of the bounded family; no sampling. Level 'other': bounded, histories through the invariant only.",
-    level_note=_LEVEL_NOTE + " BY_SOURCE_TIMESTAMP obligations with KEEP_LAST (Vec::remove followed by Vec::insert at symbolic indices) "
-               "are the largest: 8 M variables with one stored sample.",
+    level_note=_LEVEL_NOTE + " The defect found by this check (KF-C21-1) was repaired by fix commit 49151e9; nothing is suppressed.",
     technique="Kani/CBMC symbolic execution of the real add_reader_change, one inductive step per pre-state structure",
-    assumptions=_ASSUME + ["ownership SHARED, time-based filter off; negation of the KF-C21-1 trigger in the __rest harnesses"],
+    assumptions=_ASSUME + ["ownership SHARED, time-based filter off in the C21 harnesses"],
     timeout={"quick": 1500, "thorough": 3000},
     mem_gb=16,
 )
@@ -149,7 +153,7 @@ prop(
         "harnesses; the __rest harnesses assume the negation of KF-C25-1, and KF-C25-2 is outside what one step from a cache "
         "state can express (stated as assumption)."),
     bounds=_COMMON_BOUNDS + "; minimum_separation in {0.5 s, 1 s, .., 2.5 s} (thorough wide-domain harness: any finite value in (0, 2^30 s) "
-           "with timestamps sec 0..2^30 x any nanosec); quick: KEEP_ALL with 1 stored sample; thorough: 0, 2, 3 samples, KEEP_LAST, "
+           "with timestamps sec 0..2^30 x any nanosec); quick: KEEP_ALL with 2 stored samples; thorough: 0, 1, 3 samples, KEEP_LAST, "
            "BY_SOURCE_TIMESTAMP",
     outside=_COMMON_OUTSIDE + "; minimum_separation infinite or changed by set_qos during the history; samples that have left the cache "
             "(taken, evicted by KEEP_LAST, removed with their writer) - exactly KF-C25-2; the KF-C25-2 harness uses a ghost timestamp "
